@@ -565,6 +565,63 @@ def check_templates(model: Model, report: Report, rule: str) -> None:
             report.ok(rule, fn.qualname, f"{cname} renders as {want}")
         else:
             report.fail(rule, fn.qualname, f"template:{cname}", f"{cname} of $['a7'] renders as {describe(r)!r}, expected {want!r}", file=fn.file, line=fn.line)
+        # the same on an arbitrary embedded query: only the leading '$' of its text is replaced (a '$' further in —
+        # in a member name, a nested filter's root query, a string literal — belongs to the query)
+        from ..harness import str_parts
+
+        def body_sym(it: Interp, ci=ci, fn=fn) -> Any:
+            x = it.harness_inst(ci, "embedded")
+            x.attrs["token"] = it.new_opaque("token")
+            q = it.new_opaque("query", model.cls("query.JSONPathQuery"))
+            x.attrs["query"] = q
+            return it.call_function(fn, [x], {}, None, self_av=x), q
+
+        try:
+            runs2 = paths(model, body_sym)
+        except Unsupported as err:
+            report.undecided(rule, fn.qualname, f"{cname} on an arbitrary query: {err}")
+            continue
+        for run in runs2:
+            key2 = f"template:{cname}:arbitrary-query"
+            if run.kind == "raise":
+                report.fail(rule, fn.qualname, key2, f"str() raises {run.exc_name()}", file=fn.file, line=fn.line)
+                continue
+            r2, q = run.value
+
+            def is_text(t: Any) -> bool:
+                return isinstance(t, Term) and t.op == "str" and len(t.args) == 1 and t.args[0] is q
+
+            def tail_of_text(t: Any) -> Optional[str]:
+                """None if t is the query text without its first character; else why not."""
+                if isinstance(t, Term) and t.op == "strslice" and is_text(t.args[0]):
+                    a, b, c = t.args[1], t.args[2], t.args[3]
+                    if isinstance(a, Const) and a.value == 1 and isinstance(b, Const) and b.value is None and isinstance(c, Const) and c.value is None:
+                        return None
+                    return f"the slice {describe(t)!r} is not text[1:]"
+                if isinstance(t, Term) and t.op == "strmeth" and is_text(t.args[0]) and t.args[1] in ("removeprefix", "lstrip") and len(t.args[2]) == 1 and isinstance(t.args[2][0], Const) and t.args[2][0].value == "$":
+                    return None if t.args[1] == "removeprefix" else "lstrip('$') also removes further '$' characters"
+                return f"{describe(t)!r} is not the query text without its leading '$'"
+
+            prob = None
+            parts = str_parts(r2)
+            if lead == "$":
+                if not (is_text(r2) or (parts is not None and len(parts) == 1 and is_text(parts[0]))):
+                    prob = f"renders {describe(r2)!r}, expected str(self.query) unchanged"
+            else:
+                if isinstance(r2, Term) and r2.op == "strmeth" and is_text(r2.args[0]) and r2.args[1] == "replace":
+                    a = r2.args[2]
+                    if len(a) == 3 and isinstance(a[2], Const) and a[2].value == 1 and isinstance(a[0], Const) and a[0].value == "$" and isinstance(a[1], Const) and a[1].value == "@":
+                        prob = None
+                    else:
+                        prob = "every '$' of the query text is rewritten, not only the leading one: a '$' in a member name, in a nested filter's root query or in a string literal changes too, and the text then denotes another query"
+                elif parts is None or len(parts) != 2 or not (isinstance(parts[0], Const) and parts[0].value == "@"):
+                    prob = f"renders {describe(r2)!r}, expected '@' followed by the query text without its leading '$'"
+                else:
+                    prob = tail_of_text(parts[1])
+            if prob:
+                report.fail(rule, fn.qualname, key2, f"{cname}.__str__ {prob}", file=fn.file, line=fn.line)
+            else:
+                report.ok(rule, fn.qualname, key2)
 
 
 def check_number_writers(model: Model, report: Report, rule: str) -> None:
